@@ -96,8 +96,17 @@ type node struct {
 	act    world.Action
 	depth  int
 	seed   string
-	w      *world.World
+	w      *world.World // only for seeds; other nodes keep the compact encoding
+	enc    []byte
+	meta   map[string]bool
 	h      [32]byte
+}
+
+func (n *node) world() *world.World {
+	if n.w != nil {
+		return n.w
+	}
+	return world.Decode(n.enc, n.meta)
 }
 
 func (n *node) seedName() string {
@@ -211,7 +220,8 @@ func Run(p *Profile) (*Result, error) {
 						return
 					}
 					n := frontier[i]
-					for _, act := range p.Menu(n.w) {
+					nw := n.world()
+					for _, act := range p.Menu(nw) {
 						if p.MaxTrans > 0 && atomic.LoadInt64(&trans) >= p.MaxTrans {
 							atomic.StoreInt32(&stop, 1)
 							return
@@ -221,7 +231,7 @@ func Run(p *Profile) (*Result, error) {
 							return
 						}
 						act := act
-						post, legs := env.Step(n.w, act)
+						post, legs := env.Step(nw, act)
 						atomic.AddInt64(&trans, 1)
 						atomic.AddInt64(&legsN, int64(len(legs)))
 						c.node, c.act = n, &act
@@ -240,25 +250,26 @@ func Run(p *Profile) (*Result, error) {
 							}
 						}
 						if p.PostStep != nil {
-							p.PostStep(c, n.w, act, post, legs)
+							p.PostStep(c, nw, act, post, legs)
 						}
-						if post == n.w {
+						if post == nw {
 							continue
 						}
 						ph := post.Hash(p.WithGhost)
 						if vis.add(ph) {
-							nn := &node{parent: n, act: act, depth: n.depth + 1, w: post, h: ph}
+							nn := &node{parent: n, act: act, depth: n.depth + 1, h: ph}
 							c.node, c.act = nn, nil
 							for _, o := range p.Oracles {
 								o.State(c, post)
 							}
 							atomic.AddInt64(&newStates, 1)
 							if depth+1 < p.Depth {
+								nn.enc, nn.meta = post.Encode(), post.Meta
 								next[wi] = append(next[wi], nn)
 							}
 						}
 					}
-					n.w = nil // expanded: release the world, keep the history link
+					n.w, n.enc = nil, nil // expanded: release the state, keep the history link
 				}
 			}(wi)
 		}
